@@ -575,10 +575,27 @@ func (e *lckEngine) accesses(fn *ssa.Function) []*access {
 		switch x := ins.(type) {
 		case *ssa.FieldAddr:
 			fa = x
-		case *ssa.Field:
-			// value-typed struct field read
-			if g := e.guardFor(x); g != nil && !g.ptrConst && !g.readOK {
-				add(x, g, false, false)
+		case *ssa.UnOp:
+			// whole-struct load `*p`: reads every guarded field of the struct (a Field on the loaded
+			// copy is not a shared access; the load is)
+			if x.Op != token.MUL {
+				return
+			}
+			pt, ok := x.X.Type().Underlying().(*types.Pointer)
+			if !ok {
+				return
+			}
+			if _, isStruct := pt.Elem().Underlying().(*types.Struct); !isStruct || isFreshAlloc(x.X) {
+				return
+			}
+			if n := namedOf(pt.Elem()); n != nil && n.Obj().Pkg() != nil {
+				pre := short(n.Obj().Pkg().Path()) + "." + n.Obj().Name()
+				for i := range e.cfg.guards {
+					g := &e.cfg.guards[i]
+					if g.typ == pre && !g.ptrConst && !g.readOK {
+						add(x, g, false, false)
+					}
+				}
 			}
 			return
 		default:
